@@ -336,12 +336,15 @@ type TeletextOptions struct {
 func ReadFromTeletext(r io.Reader, o TeletextOptions) (s *Subtitles, err error) {
 	// Init
 	s = &Subtitles{}
-	var dmx = astits.NewDemuxer(context.Background(), newTeletextReader(r))
+	var tr = newTeletextReader(r)
+	var dmx = astits.NewDemuxer(context.Background(), tr)
 
 	// Get the teletext PID
 	var pid uint16
 	if pid, err = teletextPID(dmx, o); err != nil {
-		if err != ErrNoValidTeletextPID {
+		if errRead := teletextReaderError(tr); errRead != nil {
+			err = fmt.Errorf("astisub: reading failed: %w", errRead)
+		} else if err != ErrNoValidTeletextPID {
 			err = fmt.Errorf("astisub: getting teletext PID failed: %w", err)
 		}
 		return
@@ -361,7 +364,11 @@ func ReadFromTeletext(r io.Reader, o TeletextOptions) (s *Subtitles, err error) 
 		// Fetch next data
 		if d, err = dmx.NextData(); err != nil {
 			if err == astits.ErrNoMorePackets {
-				err = nil
+				// The demuxer takes a stream failing with io.ErrUnexpectedEOF for a stream that has ended
+				if err = teletextReaderError(tr); err != nil {
+					err = fmt.Errorf("astisub: reading failed: %w", err)
+					return
+				}
 				break
 			}
 			err = fmt.Errorf("astisub: fetching next data failed: %w", err)
@@ -414,7 +421,8 @@ func ReadFromTeletext(r io.Reader, o TeletextOptions) (s *Subtitles, err error) 
 // teletextReader fills the buffers it is given as much as possible: the demuxer detects the packet size with one
 // single Read call, therefore without it the result depends on how the underlying reader delivers the bytes
 type teletextReader struct {
-	r io.Reader
+	err error // error other than io.EOF returned by r
+	r   io.Reader
 }
 
 // teletextReadSeeker is a teletextReader that can be rewinded
@@ -436,10 +444,29 @@ func newTeletextReader(r io.Reader) io.Reader {
 
 // Read implements the io.Reader interface
 func (r *teletextReader) Read(p []byte) (n int, err error) {
-	if n, err = io.ReadFull(r.r, p); err == io.ErrUnexpectedEOF {
-		err = io.EOF
+	for n < len(p) && err == nil {
+		var m int
+		m, err = r.r.Read(p[n:])
+		n += m
+	}
+	if err == io.EOF && n == len(p) {
+		// Like io.ReadFull: a full buffer is no end of stream yet
+		err = nil
+	} else if err != nil && err != io.EOF {
+		r.err = err
 	}
 	return
+}
+
+// teletextReaderError returns the error, other than io.EOF, the underlying reader has failed with
+func teletextReaderError(r io.Reader) error {
+	switch v := r.(type) {
+	case *teletextReader:
+		return v.err
+	case *teletextReadSeeker:
+		return v.err
+	}
+	return nil
 }
 
 // Seek implements the io.Seeker interface
